@@ -13,6 +13,12 @@ value `Sub`; two list entries denote the same Python object iff they are equal.
 `step fixed` has one switch: `fixed = true` is the code with `fix: F3-remove-data-detach`
 (`SubsetGroup._remove_data` also calls `s.delete()`), `fixed = false` is the code before that
 commit (`_remove_data` only filters `group.subsets`).  `Impl` is `step true`.
+
+The `AddData` / `RemoveData` commands and `DataCollection.insert` are modelled as coded after
+`fix: F4b-add-remove-data-undo` (props.d/C13/fixes): the command objects on the stacks carry what
+their last `do` recorded (`DCmd`), `undo` acts only if the command had an effect and re-inserts a
+removed dataset at the recorded position.  That is not a switch of `step`: C06's property does
+not depend on it (the invariant is proved for any recorded flag / position).
 -/
 namespace GlueVerif.Collection
 
@@ -36,6 +42,17 @@ structure GVals where
   state : Val
   label : Val
   style : Val
+  deriving DecidableEq, Repr
+
+/-- An `AddData(d)` (`add = true`) / `RemoveData(d)` command object on one of the stacks, with what
+its last `do` recorded (`fix: F4b-add-remove-data-undo`): `AddData._added` = `changed` (the dataset
+was absent), `RemoveData._index` = `some index` if `changed` (the dataset was at that position),
+`None` otherwise. -/
+structure DCmd where
+  add : Bool
+  d : Nat
+  changed : Bool
+  index : Nat
   deriving DecidableEq, Repr
 
 /-- Point update of a table indexed by object id. -/
@@ -66,11 +83,10 @@ def upd {α : Type} (f : Nat → α) (k : Nat) (v : α) : Nat → α := fun x =>
   gvals : Nat → GVals
   /-- `Data.label` (as a token) of every dataset ever created. -/
   dlabel : Nat → Nat
-  /-- `CommandStack._command_stack`, most recent first: `(true, d)` = `AddData(d)`,
-  `(false, d)` = `RemoveData(d)`. -/
-  done : List (Bool × Nat)
+  /-- `CommandStack._command_stack`, most recent first. -/
+  done : List DCmd
   /-- `CommandStack._undo_stack`, most recent first. -/
-  undone : List (Bool × Nat)
+  undone : List DCmd
 
 /-- A fresh `DataCollection()` next to `n` fresh datasets labelled `0 … n-1` (not yet appended). -/
 def init (n colors : Nat) : State :=
@@ -90,6 +106,8 @@ inductive Op where
   | setLabel (g v : Nat)
   | setStyle (g v : Nat)
   | merge (ds : List Nat)
+  /-- `dc.insert(i, d)` (public since `fix: F4b-add-remove-data-undo`). -/
+  | insert (i d : Nat)
   | setItem (key d : Nat)
   | restore
   /-- `command_stack.do(AddData(d))` (`add = true`) / `command_stack.do(RemoveData(d))`. -/
@@ -125,13 +143,21 @@ def removeDataH (fixed : Bool) (g d : Nat) (st : State) : State :=
 
 /-! ## Operations of `DataCollection` -/
 
-/-- `DataCollection.append(data)` for a single dataset: no-op if already present; otherwise
-`_data.append`, `data.register_to_hub`, `s.register()` for the subsets the dataset already carries
+/-- `DataCollection.append(data)` for a single dataset (`= insert(len(_data), data)`): no-op if
+already present; otherwise `_data.append`, `data.register_to_hub`, `s.register()` for the subsets the dataset already carries
 (a no-op on the lists: they are attached already), then `DataCollectionAddMessage` to every
 subscribed group in subscription order.  A dataset id that was never created is ignored. -/
 def appendOne (d : Nat) (st : State) : State :=
   if d ∈ st.datasets ∨ st.nData ≤ d then st
   else st.subs.foldl (fun st g => addData g d st) { st with datasets := st.datasets ++ [d] }
+
+/-- `DataCollection.insert(i, data)`: like `append`, but `_data.insert(i, data)` — Python clamps a
+position beyond the end to the end.  The `DataCollectionAddMessage` is the same: every subscribed
+group *appends* its new subset to `group.subsets` (which therefore need not be in dataset order). -/
+def insertOne (i d : Nat) (st : State) : State :=
+  if d ∈ st.datasets ∨ st.nData ≤ d then st
+  else st.subs.foldl (fun st g => addData g d st)
+    { st with datasets := st.datasets.insertIdx (min i st.datasets.length) d }
 
 /-- `DataCollection.remove(data)`: no-op if absent; `_data.remove`, then
 `DataCollectionDeleteMessage` to every subscribed group. -/
@@ -227,20 +253,34 @@ def restore (st : State) : State :=
 
 /-! ## Undo / redo of the collection-level commands (`glue/core/command.py`)
 
-`AddData.do = append`, `AddData.undo = remove`, `RemoveData.do = remove`, `RemoveData.undo = append`;
+With `fix: F4b-add-remove-data-undo`: `AddData.do` records `_added = data not in dc`, then `append`;
+`AddData.undo = remove` if `_added`; `RemoveData.do` records `_index = dc.index(data)` (`None` if
+absent), then `remove`; `RemoveData.undo = insert(_index, data)` unless `_index is None`.
 `CommandStack.do` pushes, runs, truncates to `MAX_UNDO = 50` and clears the redo stack; `undo` /
 `redo` move the top command between the two stacks (`IndexError` on an empty stack: state
-unchanged).  The other commands (`ApplySubsetState`, `ApplyROI`, …) belong to C13. -/
+unchanged); `redo` runs `do` again, which records afresh.  The other commands (`ApplySubsetState`,
+`ApplyROI`, …) belong to C13, which also proves that these `undo`s restore the collection exactly
+when nothing but the command stack touches it; here arbitrary other operations may come between a
+command and its undo (the recorded position may then even lie beyond the end). -/
 
 def maxUndo : Nat := 50
 
-def cmdDo (fixed : Bool) (c : Bool × Nat) (st : State) : State :=
-  if c.1 then appendOne c.2 st else removeOne fixed c.2 st
+/-- what `cmd.do` records on the command object, given the collection before it runs.  (A dataset
+id that was never created is ignored by the harness; it is never in the collection.) -/
+def record (add : Bool) (d : Nat) (st : State) : DCmd :=
+  if add then ⟨true, d, !st.datasets.contains d, 0⟩
+  else ⟨false, d, st.datasets.contains d, st.datasets.idxOf d⟩
 
-def cmdUndo (fixed : Bool) (c : Bool × Nat) (st : State) : State :=
-  if c.1 then removeOne fixed c.2 st else appendOne c.2 st
+def cmdDo (fixed : Bool) (c : DCmd) (st : State) : State :=
+  if c.add then appendOne c.d st else removeOne fixed c.d st
 
-def doCmd (fixed : Bool) (c : Bool × Nat) (st : State) : State :=
+def cmdUndo (fixed : Bool) (c : DCmd) (st : State) : State :=
+  if c.changed then
+    if c.add then removeOne fixed c.d st else insertOne c.index c.d st
+  else st
+
+def doCmd (fixed : Bool) (add : Bool) (d : Nat) (st : State) : State :=
+  let c := record add d st
   let st1 := cmdDo fixed c { st with done := c :: st.done }
   { st1 with done := st1.done.take maxUndo, undone := [] }
 
@@ -253,8 +293,9 @@ def redoCmd (fixed : Bool) (st : State) : State :=
   match st.undone with
   | [] => st
   | c :: rest =>
-    let st1 := cmdDo fixed c { st with undone := rest }
-    { st1 with done := c :: st1.done }
+    let c' := record c.add c.d st
+    let st1 := cmdDo fixed c' { st with undone := rest }
+    { st1 with done := c' :: st1.done }
 
 def step (fixed : Bool) (st : State) : Op → State
   | .append d => appendOne d st
@@ -267,9 +308,10 @@ def step (fixed : Bool) (st : State) : Op → State
   | .setLabel g v => setVal g (fun x => { x with label := .user v }) st
   | .setStyle g v => setVal g (fun x => { x with style := .user v }) st
   | .merge ds => merge fixed ds st
+  | .insert i d => insertOne i d st
   | .setItem key d => setItem fixed key d st
   | .restore => restore st
-  | .doCmd add d => doCmd fixed (add, d) st
+  | .doCmd add d => doCmd fixed add d st
   | .undo => undoCmd fixed st
   | .redo => redoCmd fixed st
 
@@ -346,7 +388,8 @@ def specOk (st : State) (reads : List Read) : Bool :=
 
 Stronger than `specOk` (it also fixes the *order* of the lists, which is what makes it inductive
 for the handlers as coded): every dataset in the collection carries its subsets in group order,
-every live group lists its subsets in dataset order, attachment and listing agree, datasets
+every live group lists one subset per dataset of the collection (in dataset order until a dataset
+is inserted in front of others: a permutation), attachment and listing agree, datasets
 outside the collection carry nothing, and exactly the live groups are subscribed. -/
 structure Inv (st : State) : Prop where
   nodupD : st.datasets.Nodup
@@ -360,8 +403,9 @@ structure Inv (st : State) : Prop where
   subData : ∀ d, ∀ s ∈ st.dsubs d, s.data = some d
   /-- a dataset that is not in the collection carries no subsets. -/
   removedEmpty : ∀ d, d ∉ st.datasets → st.dsubs d = []
-  /-- the subsets listed by a live group belong, in order, to the datasets of the collection. -/
-  groupDatas : ∀ g ∈ st.groups, (st.gsubs g).map (·.data) = st.datasets.map some
+  /-- the subsets listed by a live group belong, one each, to the datasets of the collection
+  (`DataCollection.insert` puts a dataset anywhere, its new subset goes to the end of the list). -/
+  groupDatas : ∀ g ∈ st.groups, ((st.gsubs g).map (·.data)).Perm (st.datasets.map some)
   /-- a subset listed by a group (live or removed) points back to it. -/
   subGroup : ∀ g, ∀ s ∈ st.gsubs g, s.group = g
   /-- what a live group lists is attached to its dataset. -/
